@@ -815,7 +815,8 @@ CLAIMS["C18"]["text"] += (
     "derive_attrs_union_src; tied by the AST comparison of derive::expand's output (expandImplsSrc of the node texts as written) and searched with a "
     "layout family in the generator (13 layouts after an attribute, two multi-line spellings with comments between the targets) and in the probe "
     "catalogue (8 attribute lists x 12 layouts + 10 attributes with a comment between their own tokens, judged by a comment-aware reading written "
-    "independently of the compiler's lexer). Hygiene against the package: GMethod.hygienic tops (no call of the generated body is taken by a "
+    "independently of the compiler's lexer); Model/Lower.lean lowerAttributes (Cst.codeText) follows the same fix and is tied by the lowering tie on "
+    "the real trees of the probes and of the generated programs that spell their attributes. Hygiene against the package: GMethod.hygienic tops (no call of the generated body is taken by a "
     "top-level function of the package the type is defined in; name resolution prefers the package's definitions to the builtins) with "
     "derive_hygienic_partial (holds when no function of the package is spelled like a helper of the regenerated tables; the examples after it are the "
     "capture) — tied and searched by a catalogue of two-package projects: for every (derived method, helper, leaf type) READ OFF the impl blocks the "
